@@ -415,72 +415,96 @@ TECH = "bounded model checking of the real code: Kani harnesses over symbolic in
 
 PROPS = {
     "C02": dict(
+        outside="genuine 64-bit collisions between non-neighbouring positions; the LRU's own hashing and eviction; capacity 10^8",
+        explanation='Reduction: both caches are consulted and filled under (position key, colour asked about) (c02_wire_*); the key is a function of (placement, rights, en-passant target) for every draw of the tables (hmove_*, hsetup_any_mutator: toggle parity == feature changed; h2: each toggle XORs exactly its constant) and separates neighbouring positions on this draw (c02_sep_*, h1, h3_*); so a cached answer can only be served for a position with the same placement, rights, target and colour.',
         title="Move and attack queries do not depend on what the generator was asked before", jobs=16,
         technique=TECH + "; reduction: cache key = (position key, colour), so history-independence <=> key is a function of (placement, rights, ep) and separates neighbouring positions",
         level_text="Bounded model checking by reduction. Both generator caches are keyed by (position key, colour) and store a value that depends only on (placement, rights, ep, colour); the solver shows, on fully symbolic boards, that every board mutator and every move kind (apply and undo) toggles exactly the key constants of the features it changes -- for every draw of the tables (ghost-log harnesses) and on this build's real tables (per-mutator lemmas) -- and that single-feature edits always change the key. Thorough adds two symbolic 3-ply histories from the start position.",
         level_note="Assumes: RepInv on the symbolic pre-state (C12 proves it inductive); genuine 64-bit collisions between non-neighbouring positions, the LRU's eviction policy and capacity are outside the claim; the three-line cache wrappers generate_moves/get_attack_targets are read, not executed (hashbrown/LRU with symbolic keys does not terminate in CBMC, measured). Trusted: Kani/CBMC/CaDiCaL, the reference rules in harness/files/src/verif_ref.rs.",
     ),
     "C03": dict(
+        outside="moves that are not rules-shaped (apply's behaviour on garbage moves is not part of the property)",
+        explanation='One step of the board state machine from an arbitrary invariant-satisfying state (the invariant is proved inductive under C12), differential against verif_ref::successor, for every move kind x colour.',
         title="Making a legal move yields the successor position the rules prescribe", jobs=16,
         technique=TECH + "; one step of the board state machine from an arbitrary invariant-satisfying state, differential against an independent reference successor function",
         level_text="Bounded model checking of one step: for a fully symbolic board under the representation invariant and a symbolic rules-shaped move of each kind x colour, the solver shows apply() returns Ok and the 12 bitboards, en-passant target, castling rights and turn equal an independent reference successor; covers all ~2^700 pre-states per query rather than sampled positions.",
         level_note="Assumes RepInv on the pre-state (proved inductive under C12) and Legalish moves (superset of legal moves: own-king safety not required). Bounds: unwind 8 (all loops in this code are <=7 iterations; unwinding assertions on). Trusted: Kani/CBMC/CaDiCaL, the reference rules.",
     ),
     "C04": dict(
+        outside='the search and annotation callers are covered through the moves they apply and undo, not by executing them',
+        explanation='Induction on the nesting depth: the stacks are [symbolic prefix, top]; apply grows each stack by exactly one and leaves the prefix alone, undo pops exactly one and restores every raw field; the key is restored because apply;undo toggles every feature an even number of times (hmove_*), for every draw of the tables.',
         title="Undo restores the previous state exactly, to any nesting depth", jobs=16,
         technique=TECH + "; inductive step in the stack depth: stacks modelled as [symbolic prefix, top]",
         level_text="Bounded model checking of apply;undo per move kind x colour on a fully symbolic board: every raw field (12 bitboards, occupancy summaries, ep/rights/half-move stacks incl. depths and untouched prefixes, move counter, turn, repetition bookkeeping) is restored; the key is shown restored for every draw of the tables via the toggle-parity (ghost log) harnesses. Any nesting depth follows by induction on the stack depth, because the step is proved for an arbitrary prefix.",
         level_note="Assumes RepInv + Legalish as in C03; the search/annotation callers are covered only through the moves they apply and undo (C01.filter / C06.effect), not by executing the search. Trusted: Kani/CBMC/CaDiCaL, reference rules.",
     ),
     "C05": dict(
+        outside="H1 (non-zero, pairwise distinct constants) is per draw by nature: decided for the draw of this run's Kani build and for every OUT_DIR table under <repo>/target",
+        explanation="Invariant key = XOR of the constants of the position's features (+ the constant of the initial rights set): holds for Board::new (h0), is preserved by each of the 7 mutators (h3_* on this draw's real tables; hsetup_any_mutator for every draw) and by apply / apply;undo of every move kind (hmove_*); each toggle XORs exactly its feature's constant (h2); writers of the key field are only the three toggles (syntactic side condition).",
         title="The position key is a pure function of the position, independent of history", jobs=16,
         technique=TECH + "; invariant 'key = XOR of the constants of the position's features' shown preserved by every mutator and move (per-mutator lemmas on the real tables + toggle-parity ghost log for every draw)",
         level_text="Bounded model checking of the key invariant: H0 (fresh board), H1 (848 constants of this draw non-zero, pairwise distinct), H2 (each toggle XORs exactly its feature's constant), H3 (each of the 7 board mutators changes the key by exactly the constants of the features it changes, real tables, fully symbolic board), Hmove (apply and apply;undo of every move kind toggle exactly the changed features -- parity argument valid for every draw), separation of neighbouring positions. By induction over mutator calls the key is a function of (placement, rights, ep).",
         level_note="Side condition checked syntactically on the tree: the key field is written only inside the three toggle functions, piece sets only inside put/remove. H1 is per draw by nature (each check run sees a fresh draw, the build script runs inside the Kani build). Trusted: Kani/CBMC/CaDiCaL.",
     ),
     "C01": dict(
+        outside="boards with >16 pieces or >8 pawns per side; lists beyond SmallVec's inline capacity inside one stage harness (a spill is a reported failure); the slider stage beyond king + 2 own pieces (opponent side fully symbolic); two real stages are never run back to back",
+        explanation="Composition: every stage of generate_valid_moves meets its contract against the reference rules (c01_ep, c01_castle, c01_pawn_*, c01_expand*, c01_slider, c01_leaper*, m5_*, c01_filter_* per move kind, c01_filter_pair_*), and the wiring lemmas (c01_wire_*: all six stages stubbed; c01_wire_pawn_*: the four pawn sub-stages stubbed) show the stages are called once each with the caller's board and colour, filtered last, and returned. The attack map is an arbitrary bitboard in the castle / filter stages; its exactness is a1_union + c01_pawn_attacks + c01_slider + c01_leaper + C11.",
         title="Generated moves are exactly the legal moves of chess", jobs=16, jobs_thorough=8, jobs_heavy=3, mem_gb=14, timeout_thorough=4500,
         technique=TECH + "; compositional: per-stage contracts against independent reference rules + a wiring lemma with all stages stubbed",
         level_text="Bounded model checking, compositional. The whole generator cannot be symbolically executed (measured), so each stage of generate_valid_moves is checked on fully symbolic boards against independent reference rules (en passant, castling conditions, pawn pushes/captures/promotions, leaper tables, slider stage, target expansion, legality filter per move kind), and two wiring lemmas on the real generate_valid_moves / generate_pawn_moves with every stage stubbed show the stages are composed as the argument assumes. The attack map is an arbitrary bitboard in the castle and filter stages; its exactness is discharged by the A1 lemmas and C11.",
         level_note="Never runs two real stages back to back: 'each stage meets its contract' and 'the stages are wired as shown' => 'output is the legal set' is a propositional step. SmallVec's heap-spill path is cut (a spill inside a harness is a reported failure). Boards with >16 pieces or >8 pawns per side are outside the claim. Trusted: Kani/CBMC/CaDiCaL, reference rules.",
     ),
     "C11": dict(
+        outside="masks with more than 3 (quick) / 4 (thorough) bits in the make_table loop lemma; the precompile crate's own functions (a changed generator is caught through M1 on the draw it produces); termination of the magic search",
+        explanation="M1 (per square, all 2^64 occupancies x all mask subsets sharing the slot: what make_table writes is the reference ray set; segments disjoint and in range), M2 (the ray walker equals the reference rays), M3 (MIR/z3: the fill loop visits every subset and writes table[magic_index(b)] = slider_moves(b)), M5 (knight / king tables), on the constants of this run's build and (thorough) of the builds under <repo>/target.",
         title="Attack geometry tables are exact for every square, occupancy and build", jobs=16, jobs_thorough=8,
         technique=TECH + "; per-square all-occupancy queries over this build's real magic constants (2^64 occupancies x all mask subsets per square), reference ray walker as oracle; plus a bounded loop lemma for make_table decided by z3 over the function's MIR (symbolic executor of the nightly MIR dump, bit-vector queries)",
         level_text="Bounded model checking over the build-generated constants: for each of the 128 (piece, square) pairs the solver shows that for every 64-bit occupancy and every mask subset that shares its slot, the value make_table writes (slider_moves) equals the reference ray walk -- so last-writer-wins cannot hurt and extra pieces elsewhere do not matter; segments are disjoint and in range; slider_moves equals the reference rays for symbolic square and blockers; knight/king tables equal the reference for every square. Each check run sees a fresh draw of the constants (the build script runs inside the Kani build).",
         level_note="make_table's fill loop is decided on its MIR by z3 for masks of <= 3 bits (one arbitrary square and entry; slider_moves / magic_index uninterpreted there, their contracts are M1/M2); CBMC cannot get through make_table (measured). The generator crate's own functions (precompile) are not encoded: a changed generator is caught through M1 on the draw it produces, which every run regenerates. The build script's search terminating is outside the claim. Trusted: Kani/CBMC/CaDiCaL, z3 4.8.12, the MIR text parser in lib/mirloop.py, reference rays in verif_ref.rs.",
     ),
     "C06": dict(
+        outside="generators that have served earlier queries: C02's reduction; legal-move emptiness: C01",
+        explanation='Verdict logic with the generator entry points replaced by arbitrary answers plus argument records; attack-map exactness from a1_union + c01_pawn_attacks + c01_slider + c01_leaper + C11 (M1, M2, m5).',
         title="Check, checkmate and stalemate verdicts and move annotations are exact", jobs=16, jobs_thorough=8, timeout_thorough=4500,
         technique=TECH + "; verdict functions executed with the generator entry points stubbed by arbitrary results + ghost records of their arguments (wiring lemmas), composed with C01 and the attack-map lemmas",
         level_text="Bounded model checking of the verdict logic: on fully symbolic boards the solver shows in-check <=> king square in the attack map requested for the opponent on this board; checkmate <=> in check and no legal move; stalemate <=> not in check and no legal move; annotation applies the move, classifies the opponent on the successor position, undoes, and stores Checkmate/Check/None accordingly with the board restored. Legal-move emptiness and attack-map exactness are C01's and C11/A1's obligations.",
         level_note="Generator entry points are stubbed (arbitrary results, arguments recorded); 'generators that served earlier queries' is C02's reduction. Trusted: Kani/CBMC/CaDiCaL.",
     ),
     "C18": dict(
+        outside='symmetry of the summation for more than 1 further piece besides the kings rests on the table identity + additivity of the loop (read)',
+        explanation='Table identity (c18_tab) + phase-switch symmetry on fully symbolic boards (c18_eg) + full score symmetry for kings + <=1 piece (c18_sym_1, thorough) + per-side range under the legal-material bound incl. nine queens (c18_side_*, thorough) + c18_bound (difference inside the mate band, no overflow) + c18_mate (monotone in depth 0..255, stalemate 0).',
         title="Static evaluation is colour-symmetric and always dominated by mate scores", jobs=16, jobs_thorough=6, timeout_thorough=4500,
         technique=TECH + "; table identity + phase-switch symmetry on fully symbolic boards + bounded-piece equivalence + per-side range with Kani's overflow checks",
         level_text="Bounded model checking split by what the SAT solver can decide: the bonus-table identity that makes evaluation symmetric for any number of pieces, symmetry of the game-phase switch on a fully symbolic board, full score symmetry for kings plus <=1 (quick) / <=2 (thorough) symbolic pieces, per-side range [19000,30600] with no overflow under the legal-material bound incl. nine queens (thorough), the arithmetic consequence that static scores stay strictly inside the mate band, and mate-score monotonicity in remaining depth 0..255 with stalemate = 0.",
         level_note="Symmetry of the summation loop beyond 2 extra pieces rests on the table identity plus additivity of the loop (read, not solved: the monolithic equivalence did not finish in 25 min, measured). Trusted: Kani/CBMC/CaDiCaL.",
     ),
     "C13": dict(
+        outside='uniqueness over whole real move lists is derived (C01 exact set + disambiguation kernel), not executed; callee bodies in the MIR stage are uninterpreted',
+        explanation="Kernels by CBMC (disambiguation rule per number of rivals, rival selection, capture / check / castle texts, piece letters, square names, move annotation), assembly order and '=X' suffix by z3 over the MIR of the two functions that call format!.",
         title="Every legal move gets its standard, unambiguous algebraic notation", jobs=16,
         technique=TECH + "; kernel-level: disambiguation rule, rival selection and fixed-text selectors on symbolic inputs; the format! assembly (order and origin of the six parts, '=X' suffix) decided by z3 string queries over the functions' MIR (path enumeration of the nightly MIR dump)",
         level_text="Bounded model checking of the SAN kernels: the disambiguator equals the SAN rule for a symbolic piece, move and up to 3 rivals (so two like pieces never get the same label for the same destination), rival selection picks exactly the like-piece same-destination other-origin candidates on a symbolic board, pawn captures carry the file, capture / check / mate / castle texts are selected correctly, and square names are the standard ones for all 64 squares.",
         level_note="core::fmt cannot be executed by CBMC (symbolic &str: >10 GB; concrete: no verdict in 50 min), so what chess_move_to_algebraic_notation and get_promotion_chars hand to format! is decided on their MIR: per path, produced text == piece letter ++ disambiguator ++ capture mark ++ destination ++ promotion suffix ++ check suffix (castle: castle text ++ check suffix; promotion: '=' ++ piece letter), callees uninterpreted (their contracts are the CBMC kernels). Uniqueness over whole move lists is derived from C01 + the kernels, not executed. A changed SIGNATURE of a private helper makes its harness file uncompilable: those obligations become inconclusive (exit 2). Trusted: Kani/CBMC/CaDiCaL, z3, lib/mirfmt.py.",
     ),
     "C19": dict(
+        outside='the regex inside square_string_to_bitboard (replaced by an arithmetic parser); the Stockfish process',
+        explanation="Square names for all 64 squares (c19_sq_*), classifier round trip per move kind x colour on symbolic boards with the text built from symbolic bytes (c19_cls_*), to_uci's assembly by z3 over its MIR (mir::to_uci_text).",
         title="Coordinate (UCI) move text is standard and survives the Stockfish bridge", jobs=16,
         technique=TECH + "; square-name function over all 64 inputs + classifier round trip on symbolic boards with the text built from symbolic bytes; to_uci's format! assembly (origin, destination, q/r/b/n per promotion piece) decided by z3 string queries over the function's MIR",
         level_text="Bounded model checking of the two decidable halves: to_algebraic yields the standard lower-case name for every square, and create_chess_move_from_uci, fed the standard text of a symbolic Legalish move of each kind in a fully symbolic invariant-satisfying position with the mover to move, reconstructs exactly that move (kind, squares, capture tag, promotion piece).",
         level_note="ChessMove::to_uci's text assembly is decided on its MIR (per path: origin ++ destination ++ the letter of that promotion piece; a returning path for each of the four pieces), because core::fmt is not executable in CBMC (measured). Outside the claim: the regex inside square_string_to_bitboard (replaced by an arithmetic parser), the Stockfish process. Trusted: Kani/CBMC/CaDiCaL, z3, lib/mirfmt.py.",
     ),
     "C12": dict(
+        outside='states reached by moves that are not rules-shaped (generator legality is C01)',
+        explanation='Inductive invariant: base cases (starting position, empty board, put/remove) + RepInv(pre) and Legalish(move) => RepInv(post) and RepInv(state after undo), per move kind x colour on a fully symbolic board; Legalish includes king-exposing moves, so the transient states inside legality filtering, annotation and search are covered.',
         title="Board representation invariants hold in every reachable state", jobs=16,
         technique=TECH + "; inductive invariant: RepInv(pre) and rules-shaped move => RepInv(post), plus base cases",
         level_text="Inductive invariant checked by bounded model checking: base cases (starting position, empty board, put/remove) and, per move kind x colour on a fully symbolic board, RepInv(pre) and Legalish(move) => RepInv(post) with occupancy summaries agreeing with per-square contents and rights only shrinking; Legalish includes king-exposing moves, so the transient states inside legality filtering, annotation and search are covered.",
         level_note="Undo returns to the pre-state (C04). Bounds: unwind 8 / 70 for the base case. Trusted: Kani/CBMC/CaDiCaL, the invariant's statement in verif_ref.rs::rep_inv.",
     ),
     "C16": dict(
+        outside='half-move clocks above 200 on the pre-state (u8 clock); move counters above 100000',
+        explanation="Per-step counter lemmas for every move kind x colour with symbolic counters (Kani's overflow checks are the 'never wraps or aborts' oracle) + the draw threshold of game_ending for all 256 clock values.",
         title="Move counters are faithful; move-count draw follows the fifty-move rule", jobs=16,
         technique=TECH + "; per-step counter lemmas with symbolic counters, Kani's arithmetic-overflow checks as the 'never wraps or aborts' oracle",
         level_text="Bounded model checking of the counters across one move of every kind x colour with symbolic counter values: half-move clock resets exactly on captures and pawn moves and otherwise advances by one, the move counter advances by one and undo restores both, with no arithmetic overflow for any move-counter value up to 100000 plies; game_ending reports the move-count draw exactly at clock >= 100.",
